@@ -55,9 +55,20 @@ func newC12Writer(config int, out *bytes.Buffer) ion.Writer {
 		return ion.NewTextWriterOpts(out, ion.TextWriterPretty)
 	case 2:
 		return ion.NewBinaryWriter(out)
+	case 4:
+		return ion.NewBinaryWriter(out, ionSSTs(c12SSTs)...)
+	case 5:
+		return ion.NewTextWriter(out, ionSSTs(c12SSTs)...)
 	}
 	return ion.NewBinaryWriterLST(out, ion.NewLocalSymbolTable(nil, c12FixedTexts))
 }
+
+// c12SSTs are the shared tables of configurations 4 and 5.
+var c12SSTs = []SharedJ{{Name: "t1", Version: 1, Symbols: []string{"a", "x", "name"}, MaxID: -1}, {Name: "t2", Version: 2, Symbols: []string{"f", "b"}, MaxID: 4}}
+
+var c12ConfigNames = []string{"text", "pretty", "binary", "binary-fixed-lst", "binary+shared-tables", "text+shared-tables"}
+
+func c12Binary(config int) bool { return config == 2 || config == 3 || config == 4 }
 
 var badToken = ion.SymbolToken{LocalSID: ion.SymbolIDUnknown}
 
@@ -271,7 +282,7 @@ func describeCalls(c C12Case, errs []error) string {
 func runC12(c C12Case) string {
 	st := Stat("C12")
 	out, errs, pmsg := runCalls(c)
-	cfg := modeNames[c.Config]
+	cfg := c12ConfigNames[c.Config]
 	if pmsg != "" {
 		return fmt.Sprintf("config=%s: a Writer call panicked: %s\ncalls:%s", cfg, firstLine(pmsg, 300), describeCalls(c, errs))
 	}
@@ -331,14 +342,14 @@ func runC12(c C12Case) string {
 	}
 	st.Class("stream-checked")
 	var got []model.Value
-	if c.Config >= 2 {
-		res, err := refbin.Decode(out, refbin.Options{RequireIVM: true})
+	if c12Binary(c.Config) {
+		res, err := refbin.Decode(out, refbin.Options{RequireIVM: true, Catalog: refCatalog(c12SSTs)})
 		if err != nil {
 			return fmt.Sprintf("config=%s: final Finish returned nil but the output is not valid Ion binary: %v\noutput: % x\ncalls:%s", cfg, err, clip(out, 300), describeCalls(c, errs))
 		}
 		got = res.Values
 	} else {
-		res, err := reftext.Parse(out, reftext.Options{})
+		res, err := reftext.Parse(out, reftext.Options{Catalog: refCatalog(c12SSTs)})
 		if err != nil {
 			return fmt.Sprintf("config=%s: final Finish returned nil but the output is not valid Ion text: %v\noutput: %q\ncalls:%s", cfg, err, clip(out, 300), describeCalls(c, errs))
 		}
@@ -371,7 +382,7 @@ func c12Sym(t *rapid.T) model.Sym {
 }
 
 func genC12(t *rapid.T) C12Case {
-	c := C12Case{Config: gen.Intn(t, 4)}
+	c := C12Case{Config: gen.Intn(t, 6)}
 	n := gen.Range(t, 1, 40)
 	// a light-weight shadow of the protocol state to bias towards legal calls
 	var stack []string
@@ -488,7 +499,7 @@ func TestC12(t *testing.T) {
 			if len(cur) > 0 {
 				idx++
 				if idx%nshards == shard {
-					for cfg := 0; cfg < 4; cfg++ {
+					for cfg := 0; cfg < 6; cfg++ {
 						calls := append(append([]CallJ{}, cur...), CallJ{Op: "finish"})
 						if !yield(C12Case{Config: cfg, Calls: calls}) {
 							return false
@@ -515,7 +526,7 @@ var _ = big.NewInt
 
 func init() {
 	Describe("C12",
-		"cases: (writer configuration in {text, pretty, binary growing table, binary fixed table}, call sequence over the whole Writer interface with generated scalar arguments, 1-40 calls biased 75% towards protocol-legal next calls, always ending in Finish, sometimes twice). Plus exhaustive enumeration of every sequence up to length 5 (6 in the thorough tier) over a 9-call alphabet {WriteInt, WriteSymbol, FieldName, Annotation, BeginList, BeginStruct, EndList, EndStruct, Finish} x 4 configurations, each followed by a final Finish. Non-trivial: the sequence contains a refused call or an intermediate Finish, and at least one value call succeeded. Distinct by digest(configuration, calls).",
+		"cases: (writer configuration in {text, pretty, binary growing table, binary fixed table, binary with two shared tables, text with two shared tables}, call sequence over the whole Writer interface with generated scalar arguments, 1-40 calls biased 75% towards protocol-legal next calls, always ending in Finish, sometimes twice). Plus exhaustive enumeration of every sequence up to length 5 (6 in the thorough tier) over a 9-call alphabet {WriteInt, WriteSymbol, FieldName, Annotation, BeginList, BeginStruct, EndList, EndStruct, Finish} x 6 configurations, each followed by a final Finish. Non-trivial: the sequence contains a refused call or an intermediate Finish, and at least one value call succeeded. Distinct by digest(configuration, calls).",
 		"oracle: (1) no panic; (2) after the first non-Finish error every later call errors; (3) if the final Finish returns nil the bytes decode under the strict reference decoder to exactly the values a reference protocol automaton builds from the calls that returned nil, and a nil-returning call the automaton cannot apply is itself a violation; (4) a second run on a fresh writer gives identical bytes and error pattern",
 		"sequences that abandon a pending field name or annotation (End*/Finish straight after FieldName/Annotation, FieldName twice, an invalid pending token) have no documented meaning: they are run for (1), (2), (4) and skipped for (3), counted under discarded.ambiguous_sequence",
 	)
